@@ -27,20 +27,24 @@ def make_replay(chk, v, meth, lib, ref, callback):
         api = pde.api_name(meth)
         lines = ['masa_init<Scalar>("h","%s");' % v.name]
         envs = []
-        for k in range(4):
+        cbs = []
+        for k in range(5):
             env = pde.rand_env(rng, names, ['x'])
             if k == 3:
                 env['x'] = envs[2]['x']     # same point, other parameters: a value remembered per point would show
+            if k == 4:
+                env = dict(envs[3])         # same point and parameters (same temperature), ANOTHER callback: a value remembered per temperature would show
             envs.append(env)
+            cbs.append('keq2' if k == 4 else 'keq')
             for n in names:
                 lines.append('masa_set_param<Scalar>("%s",%s);' % (n, rp.lit(env[n], v.scalar)))
-            a = '(Scalar)%s' % rp.lit(env['x'], v.scalar) + (',keq' if callback else '')
+            a = '(Scalar)%s' % rp.lit(env['x'], v.scalar) + ((',' + cbs[-1]) if callback else '')
             lines.append('printf("R p%d %%.25Lg\\n",(long double)%s<Scalar>(%s));' % (k, api, a))
-        src = ('#include <masa.h>\n#include <cstdio>\nusing namespace MASA;\ntypedef %s Scalar;\nScalar keq(Scalar t){return (Scalar)0.5 + t*t/(Scalar)7;}\nint main(){\n%s\n return 0;}\n') % (cxx, '\n'.join(lines))
+        src = ('#include <masa.h>\n#include <cstdio>\nusing namespace MASA;\ntypedef %s Scalar;\nScalar keq(Scalar t){return (Scalar)0.5 + t*t/(Scalar)7;}\nScalar keq2(Scalar t){return (Scalar)1.25 + t/(Scalar)3;}\nint main(){\n%s\n return 0;}\n') % (cxx, '\n'.join(lines))
         rc, out, err = chk.lib().run(src)
         res = rp.parse_results(out)
-        ufs = {'K_eq': lambda t: rp.mp.mpf('0.5') + t * t / 7}
         for k, env in enumerate(envs):
+            ufs = {'K_eq': (lambda t: rp.mp.mpf('1.25') + t / 3)} if cbs[k] == 'keq2' else {'K_eq': (lambda t: rp.mp.mpf('0.5') + t * t / 7)}
             e = {n: rp.mp.mpf(q.numerator) / rp.mp.mpf(q.denominator) for n, q in env.items()}
             rv = tm.evalf([ref], e, rp.mp, ufs)[0]
             try:
